@@ -463,7 +463,7 @@ func reportProxy(t vkit.TB, c PCase, r pResult, class string) {
 // TestProxyHistories: rapid state machine over create / update / delete (owner, non-owner,
 // stale id) / expire orders with requests in every Host spelling in between.
 func TestProxyHistories(t *testing.T) {
-	vkit.Check(t, 6000, 60000, func(t *rapid.T) {
+	vkit.Check(t, 12000, 100000, func(t *rapid.T) {
 		c := PCase{}
 		for i := range pNames {
 			c.Registry = append(c.Registry, rapid.IntRange(-3, 2).Draw(t, fmt.Sprintf("reg%d", i)))
